@@ -54,7 +54,7 @@ def main(ctx):
     def run_walks():
         return recipe.tlc_only('heap-walks', 'Heap', constants=tla(walks), invariants=INV,
                                properties=PROPS, emit=True, simulate=nwalks, depth=40 if thorough else 30,
-                               seed=ctx.seed, timeout=1500, heap='3g')
+                               seed=ctx.seed, timeout=1500, heap='3g', budget_ok=True)
 
     minv = INV + ['IndexesConsistent']
     with ThreadPoolExecutor(4) as ex:
